@@ -17,21 +17,29 @@ def positions(seed, tier, scale=1.0):
             seen.add(p); out.append(p)
     return out
 
-def diff(res, family, cases, impl=None, model=None, nontrivial=None, known=None):
-    """implementation vs extracted model, exact."""
+def diff(res, family, cases, impl=None, model=None, nontrivial=None, known=None, proj=None, level='tie'):
+    """implementation vs extracted model.  `proj` projects an observation onto what THIS property observes.
+    level='property': the model's observation is the property-level oracle (the model is proved equal to the spec
+    at that level), a disagreement is a failing input.  level='tie': a disagreement only breaks the correspondence;
+    it is recorded and, if no property-level failing input is found by the rest of the check, reported once with
+    `no-failing-input-found` (the property is then no longer shown to hold)."""
     if impl is None: impl = V.run_impl(family, cases)
     if model is None: model = V.run_model(family, cases)
     res.count(family, cases, nontrivial)
     k = 0
     for c, i, m in zip(cases, impl, model):
-        if i != m:
+        pi, pm = (proj(i), proj(m)) if proj else (i, m)
+        if pi != pm:
             if known and known(c, i, m):
                 continue
-            if k < MAXREP:
-                res.violation(family, c, m, i, 'model', 'implementation and Coq model disagree')
+            if level == 'property':
+                if k < MAXREP:
+                    res.violation(family, c, pm, pi, 'model (proved equal to the spec)', 'implementation deviates from the proved model at the level the property observes')
+            else:
+                res.tie_break(family, c, pm, pi)
             k += 1
     if k:
-        res.notes.append('%s: %d disagreement(s) implementation vs model' % (family, k))
+        res.notes.append('%s: %d disagreement(s) implementation vs model (%s level)' % (family, k, level))
     return impl, model
 
 def parse_movegen(obs):
@@ -70,7 +78,17 @@ def c01(res, ctx):
             k += 1
     # exact tie of the generator (order, flags, mvv-lva) -- model level
     sub = ps if tier == 'thorough' else ps[::2]
-    diff(res, 'movelist', sub)
+    def proj_movelist(o):
+        # what move generation means for its users: the moves in order with moved/captured piece, castle/e.p. flags,
+        # promotion piece and mvv-lva score; the undo bookkeeping fields belong to C03
+        if ' # ' not in o: return o
+        a, b = o.split(' # ', 1)
+        out = []
+        for mv in a.split(' '):
+            f = mv.split(':')
+            out.append(':'.join([f[0], f[1], f[2], f[3][4:6], f[10], f[12]]) if len(f) >= 13 else mv)
+        return ' '.join(out) + ' # ' + b
+    diff(res, 'movelist', sub, proj=proj_movelist)
     # perft divide
     d = 2
     pp = [p + '\t' + str(d) for p in (ps[::12] if tier == 'quick' else ps[::40])]
@@ -132,7 +150,7 @@ def c02(res, ctx):
     F = [1, 2, 77, 2499, 10 ** 6]
     ps2 = [with_clocks(p, rng.choice(H), rng.choice(F)) for p in ps[::3]]
     cases = make_cases(ps + ps2, rng, per=(4 if res.tier == 'quick' else 8))
-    impl, model = diff(res, 'make', cases)
+    impl, model = diff(res, 'make', cases, proj=lambda o: ' '.join(o.split(' ')[:6]))
     spec = V.run_model('spec-make', cases)
     k = 0
     for c, i, s in zip(cases, impl, spec):
@@ -166,7 +184,10 @@ def c05(res, ctx):
             k += 1
     # is_valid after every pseudo-legal move + in-check bits after legal moves
     cases = make_cases(ps[::3], rng, per=(6 if res.tier == 'quick' else None), pseudo=True)
-    impl, model = diff(res, 'make', cases)
+    def proj_chk(o):
+        f = o.split(' ')
+        return ' '.join([f[6]] + f[-2:]) if len(f) >= 12 else o
+    impl, model = diff(res, 'make', cases, proj=proj_chk)
     legal_cases = [c for c, i in zip(cases, impl) if len(i.split(' ')) >= 8 and i.split(' ')[6] == '1']
     legal_obs = [i for c, i in zip(cases, impl) if len(i.split(' ')) >= 8 and i.split(' ')[6] == '1']
     spec = V.run_model('spec-make', legal_cases)
@@ -192,7 +213,10 @@ def c06(res, ctx):
     rng = random.Random(res.seed)
     ps = positions(res.seed, res.tier, 0.6)
     cases = make_cases(ps, rng, per=(5 if res.tier == 'quick' else None))
-    impl, model = diff(res, 'make', cases)
+    def proj_hash(o):
+        f = o.split(' ')
+        return ' '.join(f[7:11]) if len(f) >= 12 else o
+    impl, model = diff(res, 'make', cases, proj=proj_hash)
     k = 0
     by_key = {}
     for c, i in zip(cases, impl):
@@ -252,7 +276,10 @@ def c03(res, ctx):
     gp = V.gen_positions('games', res.seed + 77, 120 if res.tier == 'quick' else 3000)
     lines = line_cases(gp, rng, 1, 60 if res.tier == 'quick' else 200)
     cases += lines
-    impl, model = diff(res, 'unmake', cases)
+    def proj_ba(o):
+        parts = o.split(' | ')
+        return parts[0] + ' | ' + parts[2] if len(parts) == 3 else o
+    impl, model = diff(res, 'unmake', cases, proj=proj_ba)
     k = 0
     for c, i in zip(cases, impl):
         parts = i.split(' | ')
@@ -445,13 +472,13 @@ def hashes_snap(fens):
     return [d[f] for f in fens]
 
 # ------------------------------------------------------------------ simple model-vs-implementation families
-def generic(family, module, rule):
+def generic(family, module, rule, level='property'):
     def run(res, ctx):
         gen = importlib.import_module(module)
         rng = random.Random(res.seed)
         cases = V.corpus(family) + gen.gen(rng, res.tier)
         nt = getattr(gen, 'nontrivial', None)
-        diff(res, family, cases, nontrivial=nt)
+        diff(res, family, cases, nontrivial=nt, level=level)
         return dict(rule=rule)
     return run
 
@@ -484,7 +511,7 @@ def c04(res, ctx):
     reduced = len(cases)
     for _ in range(100000 if res.tier == 'quick' else 2000000):
         cases.append('%d\t%d\t%x' % (rng.randint(0, 1), rng.randint(0, 63), rng.getrandbits(64) & rng.getrandbits(64) if rng.random() < 0.5 else rng.getrandbits(64)))
-    impl, model = diff(res, 'magic', cases)
+    impl, model = diff(res, 'magic', cases, level='property')
     rel = V.run_impl('magic', cases[:reduced], release=True)
     k = 0
     for c, a, b in zip(cases, impl, rel):
@@ -543,10 +570,10 @@ def c15(res, ctx):
     import gen_uci
     rng = random.Random(res.seed)
     cases = V.corpus('uciparse') + gen_uci.gen(rng, res.tier)
-    impl, model = diff(res, 'uciparse', cases, nontrivial=getattr(gen_uci, 'nontrivial', None))
+    impl, model = diff(res, 'uciparse', cases, nontrivial=getattr(gen_uci, 'nontrivial', None), level='property')
     rel = V.run_impl('uciparse', cases, release=True)
     mv = V.corpus('ucimove') + gen_uci.gen_moves(rng, res.tier)
-    impl2, model2 = diff(res, 'ucimove', mv)
+    impl2, model2 = diff(res, 'ucimove', mv, level='property')
     rel2 = V.run_impl('ucimove', mv, release=True)
     k = 0
     for fam, cs, a, b in (('uciparse', cases, impl, rel), ('ucimove', mv, impl2, rel2)):
@@ -631,6 +658,9 @@ def run_check(pid, tier, seed):
         extra = CHECKS[pid](res, {'coq_ok': coq_ok}) or {}
     except V.BuildError as e:
         res.violation('run', None, None, None, 'build', 'family run failed at %s: %s' % (e.stage, e.log[-1500:]), suffix='no-failing-input-found')
+    if res.ties and not res.violations:
+        fam, c, pm, pi = res.ties[0]
+        res.violation(fam, None, None, None, 'correspondence', 'the correspondence model/implementation of family %s no longer holds (%d case(s), first: %r model=%r implementation=%r) but no input was found on which the property itself fails' % (fam, len(res.ties), c[:300], pm[:300], pi[:300]), suffix='no-failing-input-found')
     if proofs['errors'] and not res.violations:
         try:
             find_bad(pid, res)
